@@ -95,8 +95,7 @@ func linkReader(t *testing.T, rep *kit.Report, env kit.Env, evals, nontrivial, t
 					ep := kit.NewEndpoint("adv")
 					var pv any
 					go func() {
-						_, v := kit.Try(func() { _, _ = r.Peering().VerifSetupLink(ep, nil, false) })
-						pv = v
+						_, pv = kit.Accept(r, ep)
 					}()
 					synctest.Wait()
 					ep.Feed([]byte{byte(a), byte(b)})
